@@ -106,9 +106,12 @@ class TestToolsTestRunner:
         )
         result.startTestRun()
         try:
-            return test.run(result)
+            # Not every suite's run() returns the result (ConcurrentTestSuite
+            # and FixtureSuite return None): hand back the one we made.
+            test.run(result)
         finally:
             result.stopTestRun()
+        return result
 
 
 ####################
